@@ -30,9 +30,23 @@ BUDGET = {"quick": {"shards": 8, "seconds": 40}, "thorough": {"shards": 16, "sec
 
 from ..dump import dump  # noqa: E402
 
+import tawazi  # noqa: E402
+
 
 def run_case(case: Dict[str, Any]) -> CaseResult:
+    # RUN_DEBUG_NODES is a run-time switch: `run_debug` is in force for every execution of this case, `compose_debug`
+    # only while compose() itself runs (its value at that moment must not matter)
+    old_flag = tawazi.cfg.RUN_DEBUG_NODES
+    tawazi.cfg.RUN_DEBUG_NODES = bool(case.get("run_debug", True))
+    try:
+        return _run_case(case)
+    finally:
+        tawazi.cfg.RUN_DEBUG_NODES = old_flag
+
+
+def _run_case(case: Dict[str, Any]) -> CaseResult:
     res = CaseResult()
+    RD = bool(case.get("run_debug", True))
     P = case["prog"]
     M = Model({"prog": P, "mc": case.get("mc", 2)})
     oargs = [prog.dec(a) for a in case["orig_args"]]
@@ -42,7 +56,7 @@ def run_case(case: Dict[str, Any]) -> CaseResult:
         return asyncio.run(r) if asyncio.iscoroutine(r) else r
 
     pre: Dict[str, Any] = {}
-    R0 = prog.Ref(op=1)
+    R0 = prog.Ref(op=1, run_debug=RD)
     ref_orig = prog.ref_run(P, oargs, R0)
     if case.get("setup_first"):
         ex0 = sched.Exec("free")
@@ -69,7 +83,7 @@ def run_case(case: Dict[str, Any]) -> CaseResult:
     before = dump(b.dag)
     vals = [prog.dec(v) for v in case["vals"]]
     E = cr.compose_expect(P, M, case["inputs"], case["outputs"], vals, pre, single=case.get("single", False),
-                          ambiguous=bool(case.get("ambiguous")))
+                          ambiguous=bool(case.get("ambiguous")), run_debug=RD)
     # reference stamps for setup sites computed inside the composed instance: operation 2
     ins = case["inputs"]
     real_inputs = ins
@@ -120,7 +134,7 @@ def run_case(case: Dict[str, Any]) -> CaseResult:
     try:
         with ex3:
             v = _now(b.dag(*oargs))
-        R3 = prog.Ref(op=3, pre=dict(pre))
+        R3 = prog.Ref(op=3, pre=dict(pre), run_debug=RD)
         want = prog.ref_run(P, oargs, R3)
         if v != want:
             res.viol("original-behaviour-changed", f"after compose the original returns {v!r}, reference {want!r}" + tag)
@@ -159,9 +173,9 @@ def _ref_with_stamps(P: Dict[str, Any], M: Model, case: Dict[str, Any], vals: Li
     params = [n for n, _d in P["params"]]
     required = [n for n, d in P["params"] if d is None]
     ins = list(params) if case["inputs"] == "..." else case["inputs"]
-    E = cr.compose_expect(P, M, case["inputs"], case["outputs"], vals, pre, single=case.get("single", False))
+    E = cr.compose_expect(P, M, case["inputs"], case["outputs"], vals, pre, single=case.get("single", False), run_debug=bool(case.get("run_debug", True)))
     R = prog.Ref(selected=E.needed | {i for i in ins if i not in params}, pre={s: v for s, v in pre.items() if s not in ins},
-                 substitute=dict(zip(ins, vals)), op=2)
+                 substitute=dict(zip(ins, vals)), op=2, run_debug=bool(case.get("run_debug", True)))
     prog.ref_run(P, [None] * len(required), R)
     outs = [None if R.values[o] is prog.NOTRUN else R.values[o] for o in case["outputs"]]
     return {"value": outs[0] if case.get("single") else tuple(outs), "executed": list(R.executed)}
@@ -181,7 +195,11 @@ def _run_composed(b: prog.Built, P: Dict[str, Any], real_inputs: Any, case: Dict
         kw = {} if case.get("as_async") is None else {"is_async": case["as_async"]}
         with warnings.catch_warnings(record=True) as w:
             warnings.simplefilter("always")
-            c = b.dag.compose("CMP", ins, outs, **kw)
+            tawazi.cfg.RUN_DEBUG_NODES = bool(case.get("compose_debug", case.get("run_debug", True)))
+            try:
+                c = b.dag.compose("CMP", ins, outs, **kw)
+            finally:
+                tawazi.cfg.RUN_DEBUG_NODES = bool(case.get("run_debug", True))
         out["warnings"] = [str(x.message) for x in w]
     except BaseException as e:  # noqa: BLE001
         if isinstance(e, KeyboardInterrupt):
@@ -204,11 +222,14 @@ def _run_composed(b: prog.Built, P: Dict[str, Any], real_inputs: Any, case: Dict
 @st.composite
 def cases(draw: Any, tier: str) -> Dict[str, Any]:
     P = draw(gen.flat_prog(min_sites=3, max_sites=8, max_deps=3, resources=gen.RES, dep_kinds=("pos", "kw", "flag"),
-                           n_setup=draw(st.integers(0, 2)), stamp_setup=True, n_params=2, index_rate=0.3, prio_range=(-1, 2)))
+                           n_setup=draw(st.integers(0, 2)), stamp_setup=True, n_params=2, index_rate=0.3, prio_range=(-1, 2),
+                           n_debug=draw(st.sampled_from([0, 0, 1, 2]))))
     P["params"] = [["p0", None], ["p1", {"d": draw(st.sampled_from([5, "d1", 0]))}]]
     sites = [s["site"] for s in P["body"]]
-    nonsetup = [s["site"] for s in P["body"] if not P["fns"][s["fn"]].get("setup")]
+    # setup sites can not be inputs (a setup node must not depend on a DAG input); debug sites are not offered either
+    nonsetup = [s["site"] for s in P["body"] if not P["fns"][s["fn"]].get("setup") and not P["fns"][s["fn"]].get("debug")]
     case: Dict[str, Any] = {"prog": P, "mc": draw(st.integers(1, 3)), "setup_first": draw(st.booleans()),
+                            "run_debug": draw(st.booleans()), "compose_debug": draw(st.booleans()),
                             "orig_args": [draw(st.sampled_from([0, 1, "a"]))] + ([draw(st.sampled_from([2, "b"]))] if draw(st.booleans()) else [])}
     deps = gen.deps_of(P)
     anc = gen.ancestors(deps)
